@@ -1,4 +1,4 @@
-import SiaProofs.Lemmas.MerkleRhpDiffOps
+import SiaProofs.Lemmas.MerkleRhpDiffGen
 import SiaProofs.Props.C16
 import SiaProofs.Props.C16Tie
 /-!
@@ -18,7 +18,11 @@ and once over the modified leaf hashes against the new root, re-using the same t
 * `c16_diff_forged_accepted`: the verifier WITHOUT the leaf-count check (the code before fix
   9e80790, flag = false) accepts a forged instance; with the check it rejects it.
 
-Not covered by theorems (correspondence only): action lists containing `Append` or several trims.
+* `c16_diff_complete_general`, `c16_diff_sound_general`: the same for EVERY valid list of Append /
+  Swap / Trim actions (`ValidActs`: any order and number; swap indices below the current count, trims
+  not exceeding it) — rhp/v2 write batches.
+
+Not modelled: `Update` actions (the Go code panics on them) and counts ≥ 2^64.
 -/
 set_option linter.unusedVariables false
 namespace C16
@@ -277,6 +281,137 @@ theorem c16_diff_sound [DecidableEq H] (hinj : NodeInj H) (ls : List H) (sw : Li
             simp only at hacc hhonest
             exact verifyMultiG_root_unique _ _ _ _ _ _ _ hacc hhonest
   · simp [hlen] at hacc
+
+/-! ### the whole verifier on EVERY valid list of Append / Swap / Trim actions (rhp/v2 write batches) -/
+
+theorem actionIndices_total : ∀ (acts : List (Action H)) (m : Nat), ValidActs m acts →
+    ∃ raw, actionIndices acts m = .ok raw := by
+  intro acts
+  induction acts with
+  | nil => intro m _; exact ⟨[], rfl⟩
+  | cons a acts ih =>
+    intro m hv
+    cases a with
+    | other => exact absurd hv (by simp [ValidActs])
+    | append r =>
+      obtain ⟨raw, hr⟩ := ih (m + 1) hv.2
+      exact ⟨m :: raw, by simp [actionIndices, hr, bind, Except.bind, pure, Except.pure]⟩
+    | trim k =>
+      have ht := (trimIndices_spec k m hv.2.1 hv.1).1
+      obtain ⟨raw, hr⟩ := ih (m - k) hv.2.2
+      exact ⟨(trimIndices k m).2 ++ raw, by simp [actionIndices, ht, hr, bind, Except.bind, pure, Except.pure]⟩
+    | swap a b =>
+      obtain ⟨raw, hr⟩ := ih m hv.2.2
+      exact ⟨a :: b :: raw, by simp [actionIndices, hr, bind, Except.bind, pure, Except.pure]⟩
+
+theorem below_length_diff (S : List Nat) (hS : Sorted S) (n n' : Nat)
+    (hcov : ∀ j, min n n' ≤ j → j < max n n' → j ∈ S) :
+    n + (below S n').length - (below S n).length = n' := by
+  by_cases hle : n ≤ n'
+  · have := below_split S hS n' (n' - n) (by omega) (fun j a b => hcov j (by omega) (by omega))
+    have e : n' - (n' - n) = n := by omega
+    rw [e] at this
+    rw [this]; simp; omega
+  · have := below_split S hS n (n - n') (by omega) (fun j a b => hcov j (by omega) (by omega))
+    have e : n - (n - n') = n' := by omega
+    rw [e] at this
+    rw [this]; simp; omega
+
+/-- Completeness for every valid action list (`ValidActs`: Append, Swap with indices below the
+current count, Trim not exceeding the current count, in any order and number): the builder's
+proof is accepted with the plain old root and the plain root of `applyActions ls actions`. -/
+theorem c16_diff_complete_general [DecidableEq H] (cc : Bool) (ls : List H) (acts : List (Action H))
+    (hv : ValidActs ls.length acts) :
+    ∃ th lf ls', buildDiffProof acts ls = .ok (th, lf) ∧ applyActions ls acts = .ok ls' ∧
+      verifyDiffProofG cc acts ls.length th lf (metaRoot ls) (metaRoot ls') = .ok true := by
+  obtain ⟨raw, hraw⟩ := actionIndices_total acts ls.length hv
+  have hS := sorted_sortDedup raw
+  obtain ⟨l', e1, e2, e3, ag, cov, _⟩ := acts_compress (sortDedup raw) hS acts ls raw hv hraw
+    (fun x hx => (mem_sortDedup x raw).2 hx)
+  have hsc : sectorsChanged acts ls.length = .ok (below (sortDedup raw) ls.length) := by
+    unfold sectorsChanged; rw [hraw]; rfl
+  have hokS : IdxOK 0 (below (sortDedup raw) ls.length) ls.length :=
+    IdxOK_of_sorted _ 0 _ (sorted_below hS _) (fun x hx => ⟨Nat.zero_le _, (mem_below.1 hx).2⟩) (Nat.zero_le _)
+  have hokS' : IdxOK 0 (below (sortDedup raw) l'.length) l'.length :=
+    IdxOK_of_sorted _ 0 _ (sorted_below hS _) (fun x hx => ⟨Nat.zero_le _, (mem_below.1 hx).2⟩) (Nat.zero_le _)
+  refine ⟨gapHashes ls (below (sortDedup raw) ls.length) 0 ls.length,
+    (below (sortDedup raw) ls.length).map (fun j => ls.getD j zero), l', ?_, e1, ?_⟩
+  · unfold buildDiffProof
+    rw [hsc]
+    simp only [bind, Except.bind, pure, Except.pure]
+    rw [(c16_diff_old_complete cc ls _ hokS).1]
+  · unfold verifyDiffProofG
+    rw [hsc]
+    simp only [List.length_map, ne_eq, not_true_eq_false, if_false]
+    rw [(c16_diff_old_complete cc ls _ hokS).2]
+    have hml : modifyLeaves ((below (sortDedup raw) ls.length).map (fun j => ls.getD j zero)) acts ls.length
+        = .ok ((below (sortDedup raw) l'.length).map (fun j => l'.getD j zero)) := by
+      unfold modifyLeaves; rw [hraw]; exact e2
+    simp only [hml, e3, List.length_map]
+    rw [below_length_diff _ hS ls.length l'.length cov,
+      gapHashes_passes _ hS ls l' ag cov]
+    have := (c16_diff_old_complete cc l' _ hokS').2
+    exact this
+
+/-- Soundness for every valid action list, for the code as it is: with the true count and the true
+old root, acceptance forces the new root to be the plain root of `applyActions ls actions` and the
+proof to be the builder's. -/
+theorem c16_diff_sound_general [DecidableEq H] (hinj : NodeInj H) (ls : List H) (acts : List (Action H))
+    (hv : ValidActs ls.length acts) (th lf : List H) (newRoot : H)
+    (hacc : verifyDiffProofG codeChecksLeafCount acts ls.length th lf (metaRoot ls) newRoot = .ok true) :
+    ∃ ls', applyActions ls acts = .ok ls' ∧ newRoot = metaRoot ls' ∧ buildDiffProof acts ls = .ok (th, lf) := by
+  obtain ⟨th0, lf0, ls', hbuild, happ, hhonest⟩ := c16_diff_complete_general codeChecksLeafCount ls acts hv
+  obtain ⟨raw, hraw⟩ := actionIndices_total acts ls.length hv
+  have hS := sorted_sortDedup raw
+  have hsc : sectorsChanged acts ls.length = .ok (below (sortDedup raw) ls.length) := by
+    unfold sectorsChanged; rw [hraw]; rfl
+  have hokS : IdxOK 0 (below (sortDedup raw) ls.length) ls.length :=
+    IdxOK_of_sorted _ 0 _ (sorted_below hS _) (fun x hx => ⟨Nat.zero_le _, (mem_below.1 hx).2⟩) (Nat.zero_le _)
+  have hb : th0 = gapHashes ls (below (sortDedup raw) ls.length) 0 ls.length ∧
+      lf0 = (below (sortDedup raw) ls.length).map (fun j => ls.getD j zero) := by
+    unfold buildDiffProof at hbuild
+    rw [hsc] at hbuild
+    simp only [bind, Except.bind, pure, Except.pure] at hbuild
+    rw [(c16_diff_old_complete true ls _ hokS).1] at hbuild
+    simp only [Except.ok.injEq, Prod.mk.injEq] at hbuild
+    exact ⟨hbuild.1.symm, hbuild.2.symm⟩
+  unfold verifyDiffProofG at hacc hhonest
+  rw [hsc] at hacc hhonest
+  simp only at hacc hhonest
+  by_cases hlen : (below (sortDedup raw) ls.length).length = lf.length
+  · simp only [hlen, ne_eq, not_true_eq_false, if_false] at hacc
+    cases hold : verifyMultiG codeChecksLeafCount (below (sortDedup raw) ls.length) th lf ls.length (metaRoot ls) with
+    | error e => rw [hold] at hacc; simp at hacc
+    | ok v =>
+      cases v with
+      | false => rw [hold] at hacc; simp at hacc
+      | true =>
+        obtain ⟨hth, hlf⟩ := c16_diff_old_sound hinj ls _ th lf hokS hlen.symm hold
+        rw [← hb.1] at hth
+        rw [← hb.2] at hlf
+        subst hth hlf
+        rw [hold] at hacc
+        simp only at hacc
+        simp only [hlen, ne_eq, not_true_eq_false, if_false, hold] at hhonest
+        refine ⟨ls', happ, ?_, hbuild⟩
+        cases hm : modifyLeaves lf acts ls.length with
+        | error e => rw [hm] at hacc; simp at hacc
+        | ok nl =>
+          rw [hm] at hacc hhonest
+          simp only at hacc hhonest
+          cases hp : modifyProofRanges (below (sortDedup raw) ls.length) acts ls.length with
+          | error e => rw [hp] at hacc; simp at hacc
+          | ok ni =>
+            rw [hp] at hacc hhonest
+            simp only at hacc hhonest
+            exact verifyMultiG_root_unique _ _ _ _ _ _ _ hacc hhonest
+  · simp [hlen] at hacc
+
+example : ∃ th lf ls', buildDiffProof [Action.append (r6 9), Action.swap 1 6, Action.trim 2, Action.append (r6 8)] six = .ok (th, lf) ∧
+    applyActions six [Action.append (r6 9), Action.swap 1 6, Action.trim 2, Action.append (r6 8)] = .ok ls' ∧
+    verifyDiffProofG true [Action.append (r6 9), Action.swap 1 6, Action.trim 2, Action.append (r6 8)] six.length th lf
+      (metaRoot six) (metaRoot ls') = .ok true :=
+  c16_diff_complete_general true six _ (by simp [ValidActs, six])
 
 /-! ### rhp/v4 free-sectors proofs -/
 
